@@ -247,21 +247,3 @@ def candidates(case):
         c = dict(case)
         c["history"] = h
         yield c
-
-
-def finding_matches(case, result, fd):
-    if fd["id"] == "F3":
-        if result.get("cls") not in ("refine-merged-blocks", "block-inflated-beyond-limit"):
-            return False
-        # ablation: evicting the shared lowering cache at every config flip makes the run clean
-        from ..worker import exec_case
-        import sys
-
-        h2 = []
-        for e in case["history"]:
-            h2.append(e)
-            if e["ev"] == "config":
-                h2.append({"ev": "evict", "what": "lower"})
-        r = exec_case(sys.modules[__name__], dict(case, history=h2))
-        return r["status"] == "ok"
-    return False
